@@ -806,6 +806,57 @@ Section XEvalL.
 End XEvalL.
 
 (* ====================================================================================== *)
+(* The scalar construction paths: k * A, A * k, -A, A - B (and A / k)                      *)
+Section ScaledL.
+  Variable K : Type.
+  Variable x64 : bool.
+  Variable info : infos.
+  Notation op := (op K).
+  Notation xeval := (xeval x64 info).
+
+  Lemma xeval_comp_cons j j' (h : op) l s : xeval (Comp j (h :: l)) s = obind (xeval (Comp j' l) s) (xeval h).
+  Proof. reflexivity. Qed.
+
+  Lemma xeval_homoth i (k : K) s0 s p : ilookup info i = Some p -> forallb (absorbs x64 (pi_ty p)) (flatten s) = true ->
+    xeval (Homoth i k s0) s = Some s.
+  Proof. intros El H. cbn [Structs.xeval]. rewrite El. now apply (scal_ok_eval x64 info i s p El). Qed.
+
+  (* HomothetyOperator(value, A.out_structure()) @ A for an operator A that is not itself a composition *)
+  Theorem scaled_honest_l i j (k : K) p (e : op) :
+    ilookup info i = Some p -> xeval e (in_struct e) = Some (out_struct e) ->
+    forallb (absorbs x64 (pi_ty p)) (flatten (out_struct e)) = true ->
+    let r := Comp j [Homoth i k (out_struct e); e] in
+    in_struct r = in_struct e /\ out_struct r = out_struct e /\ xeval r (in_struct r) = Some (out_struct r).
+  Proof.
+    intros El He Ha r.
+    assert (Hi : in_struct r = in_struct e) by reflexivity.
+    assert (Ho : out_struct r = out_struct e) by reflexivity.
+    split; [exact Hi|]. split; [exact Ho|]. rewrite Hi, Ho. unfold r.
+    rewrite (xeval_comp_cons j j (Homoth i k (out_struct e)) [e]).
+    change (xeval (Comp j [e]) (in_struct e)) with (obind (Some (in_struct e)) (xeval e)). cbn [obind]. rewrite He. cbn [obind].
+    now apply (xeval_homoth i k (out_struct e) (out_struct e) p).
+  Qed.
+
+  (* ... and for a composition A = A1 @ ... @ An: the scalar operator is PREPENDED to the operands *)
+  Theorem scaled_comp_honest_l i j j' (k : K) p (l : list op) : l <> [] ->
+    ilookup info i = Some p ->
+    let e := Comp j' l in
+    xeval e (in_struct e) = Some (out_struct e) ->
+    forallb (absorbs x64 (pi_ty p)) (flatten (out_struct e)) = true ->
+    let r := Comp j (Homoth i k (out_struct e) :: l) in
+    in_struct r = in_struct e /\ out_struct r = out_struct e /\ xeval r (in_struct r) = Some (out_struct r).
+  Proof.
+    intros Hl El e He Ha r.
+    assert (Hi : in_struct r = in_struct e).
+    { unfold r, e, in_struct. cbn [structs fst map]. destruct l as [|a l']; [congruence|]. reflexivity. }
+    assert (Ho : out_struct r = out_struct e) by reflexivity.
+    split; [exact Hi|]. split; [exact Ho|]. rewrite Hi, Ho. unfold r.
+    rewrite (xeval_comp_cons j j' (Homoth i k (out_struct e)) l). fold e. rewrite He. cbn [obind].
+    now apply (xeval_homoth i k (out_struct e) (out_struct e) p).
+  Qed.
+End ScaledL.
+
+(* ====================================================================================== *)
 (* The constructors of the diagonal classes                                                *)
 (* DiagonalOperator accepted => mv keeps the shape of every leaf (the square declaration is honest) *)
 Lemma diag_leaf_checked_strict dsh axes lsh r : diag_leaf_checked true dsh axes lsh = Some r -> r = lsh.
